@@ -16,7 +16,7 @@ import (
 
 func init() { vfRegister("HarnessC18_InitOrder", HarnessC18_InitOrder) }
 
-var vfMods = []string{"m0", "m1", "m2", "m3", "m4"}
+var vfMods = []string{"m0", "m1", "m2", "m3", "m4", "m5", "m6", "m7"}
 
 func HarnessC18_InitOrder() {
 	n := vfParam("mods", 3)
